@@ -18,11 +18,21 @@ use crate::rng::Rng;
 use crate::sha256;
 use crate::sx::Sx;
 
-pub const NUM_PUZZLES: usize = 5;
+pub const NUM_PUZZLES: usize = 7;
+/// puzzles 5 and 6 are bare environment paths: they hold no quote, so a bundle that uses only
+/// them can be free of the atom 1 altogether (what a tree-interning cost de-duplicates against)
+pub const PATH_FIRST: usize = 5;
+pub const PATH_SECOND: usize = 6;
 
 pub fn puzzle(k: usize) -> Sx {
     if k == 0 {
         Sx::atom(&[1])
+    } else if k == PATH_FIRST {
+        // 2: the first item of the solution
+        Sx::atom(&[2])
+    } else if k == PATH_SECOND {
+        // 5: the second item of the solution
+        Sx::atom(&[5])
     } else {
         // (c (q . (1 . k)) 1)
         Sx::list(&[
@@ -37,6 +47,10 @@ pub fn puzzle(k: usize) -> Sx {
 pub fn puzzle_output(k: usize, solution: &Sx) -> Sx {
     if k == 0 {
         solution.clone()
+    } else if k == PATH_FIRST {
+        solution.first().cloned().unwrap_or_else(Sx::nil)
+    } else if k == PATH_SECOND {
+        solution.rest().and_then(Sx::first).cloned().unwrap_or_else(Sx::nil)
     } else {
         Sx::pair(Sx::pair(Sx::atom(&[1]), Sx::atom(&[k as u8])), solution.clone())
     }
@@ -92,7 +106,13 @@ impl ASpend {
         sha256(&[&self.parent, &self.puzzle_hash, &minimal_be_u64(self.amount)])
     }
     pub fn solution(&self) -> Sx {
-        Sx::list_term(&self.conds, self.cond_term.clone())
+        let conds = Sx::list_term(&self.conds, self.cond_term.clone());
+        match self.puzzle_idx {
+            PATH_FIRST => Sx::list(&[conds]),
+            // the unused first item: nil or a byte of the parent id (never a fresh small atom)
+            PATH_SECOND => Sx::list(&[if self.parent[0] & 1 == 0 { Sx::nil() } else { Sx::atom(&self.parent[..4]) }, conds]),
+            _ => conds,
+        }
     }
     pub fn conditions(&self) -> Sx {
         puzzle_output(self.puzzle_idx, &self.solution())
@@ -247,8 +267,13 @@ pub fn gen_bundle(rng: &mut Rng, p: &GenParams) -> ABundle {
     let mut d = Draft { spends: vec![], budget: 0 };
     let mut ff_candidates: Vec<usize> = vec![];
     let big_amounts = rng.below(100) < p.big_amount_pct;
+    // some bundles use the quote-free path puzzles only
+    let paths_only = rng.chance(1, 10);
+    if paths_only {
+        tags.push("paths-only".into());
+    }
     for _ in 0..n {
-        let puzzle_idx = rng.usize(NUM_PUZZLES);
+        let puzzle_idx = if paths_only { PATH_FIRST + rng.usize(2) } else { rng.usize(NUM_PUZZLES) };
         let puzzle_hash = puzzle(puzzle_idx).tree_hash();
         let amount = if big_amounts {
             u64::MAX - rng.below(8)
@@ -262,7 +287,11 @@ pub fn gen_bundle(rng: &mut Rng, p: &GenParams) -> ABundle {
         let sibling = !d.spends.is_empty() && rng.chance(1, 10);
         let (puzzle_idx, puzzle_hash, amount) = if sibling {
             let o = &d.spends[rng.usize(d.spends.len())];
-            let k = (o.puzzle_idx + 1 + rng.usize(NUM_PUZZLES - 1)) % NUM_PUZZLES;
+            let k = if paths_only {
+                PATH_FIRST + PATH_SECOND - o.puzzle_idx
+            } else {
+                (o.puzzle_idx + 1 + rng.usize(NUM_PUZZLES - 1)) % NUM_PUZZLES
+            };
             (k, puzzle(k).tree_hash(), o.amount)
         } else {
             (puzzle_idx, puzzle_hash, amount)
@@ -547,7 +576,7 @@ fn add_valid_condition(rng: &mut Rng, p: &GenParams, d: &mut Draft, i: usize, ta
             let c = cond(&[71], &[Sx::atom(&me_parent)]);
             // the fast-forward rule is positional: sometimes put it second on purpose
             if rng.chance(1, 2) && !d.spends[i].conds.is_empty() {
-                let at = if d.spends[i].puzzle_idx == 0 { 1 } else { 0 };
+                let at = if matches!(d.spends[i].puzzle_idx, 0 | PATH_FIRST | PATH_SECOND) { 1 } else { 0 };
                 let at = at.min(d.spends[i].conds.len());
                 d.spends[i].conds.insert(at, c);
             } else {
